@@ -187,12 +187,14 @@ impl<T> Iterator for Src<T> {
         }
         r
     }
-    /// a safe iterator may report any hint; mode 2 of `from_iter` / `extend` understates it
+    /// a safe iterator may report any hint: modes 0/1 say nothing, 2 understates, 3 is exact, 4 overstates
     fn size_hint(&self) -> (usize, Option<usize>) {
-        if crate::ctl::with(|c| c.lie_hint) {
-            (0, Some(0))
-        } else {
-            (0, None)
+        let rem = self.items[self.pos.min(self.items.len())..].iter().filter(|x| x.is_some()).count();
+        match crate::ctl::with(|c| c.hint_mode) {
+            2 => (0, Some(0)),
+            3 => (rem, Some(rem)),
+            4 => (rem + 3, Some(rem + 3)),
+            _ => (0, None),
         }
     }
 }
@@ -509,7 +511,7 @@ pub fn map_op<const N: usize>(cx: &mut Cx, m: &mut MapN<N>, op: &MapOp) -> Strin
             drop(x);
             "()".into()
         }
-        MapOp::CloneTo(_) | MapOp::Eq(_) | MapOp::FromIter(..) | MapOp::Serde(_) => unreachable!(),
+        MapOp::CloneTo(_) | MapOp::CloneFrom(_) | MapOp::Eq(_) | MapOp::FromIter(..) | MapOp::Serde(_) => unreachable!(),
     }
 }
 
